@@ -229,7 +229,7 @@ public:
 	  \param sz number of elements to initially allocate
 	  \param reserve percentage of sz to keep in reserve */
 	explicit presorted_set(const size_t sz=0, const size_t reserve=FIX8_RESERVE_PERCENT) : _reserve(reserve),
-		_sz(sz), _rsz(_sz + calc_reserve(_sz, _reserve)), _arr() {}
+		_sz(), _rsz(sz + calc_reserve(sz, _reserve)), _arr() {}
 
 	/// dtor
 	~presorted_set() { delete[] _arr; }
